@@ -145,15 +145,33 @@ def _run_repr(case):
                 if g2 != wexp:
                     return f"{what}: get_range_representation returned {whole!r}, expected atoms {wexp}"
             # the same text inside a name template (file names of results), next to a scalar and a string
-            d = {"v": arr, "n": 7, "s": "abc"}
+            # ... and a second, different array (the same values backwards) whose text is judged on its own first
+            rev = arr[::-1].copy()
             try:
-                name = replace_dict_values("r_{v}_{n}_{s}_{v}", d, fm)
+                rtext = get_mixed_range_representation(rev, fm)
+            except Exception as e:      # noqa
+                return f"{what}: get_mixed_range_representation of the reversed array raised {type(e).__name__}: {e}"
+            d = {"v": arr, "n": 7, "s": "abc", "w": rev}
+            try:
+                name = replace_dict_values("r_{v}_{n}_{s}_{w}_{v}", d, fm)
             except Exception as e:      # noqa
                 return f"{what}: replace_dict_values raised {type(e).__name__}: {e}"
-            if name != f"r_[{text}]_7_abc_[{text}]":
-                return f"{what}: replace_dict_values gave {name!r}, expected 'r_[{text}]_7_abc_[{text}]'"
-            if d["v"] is not arr or d["n"] != 7 or d["s"] != "abc" or len(d) != 3:
+            if name != f"r_[{text}]_7_abc_[{rtext}]_[{text}]":
+                return f"{what}: replace_dict_values gave {name!r}, expected 'r_[{text}]_7_abc_[{rtext}]_[{text}]'"
+            if d["v"] is not arr or d["n"] != 7 or d["s"] != "abc" or d["w"] is not rev or len(d) != 4:
                 return f"{what}: replace_dict_values changed the dictionary it was given"
+            if fm:
+                # the file names of results are this text (SimulationResults.get_filename_with_replaced_params)
+                from pyphysim.simulations.parameters import SimulationParameters
+                from pyphysim.simulations.results import SimulationResults
+                try:
+                    sr = SimulationResults()
+                    sr.set_parameters(SimulationParameters.create({"v": arr, "n": 7, "w": rev}))
+                    fname = sr.get_filename_with_replaced_params("res_{w}_{n}_{v}")
+                except Exception as e:      # noqa
+                    return f"{what}: get_filename_with_replaced_params raised {type(e).__name__}: {e}"
+                if fname != f"res_[{rtext}]_7_[{text}]":
+                    return f"{what}: results file name {fname!r}, expected 'res_[{rtext}]_7_[{text}]'"
             if not np.array_equal(arr, keep) or arr.dtype != keep.dtype:
                 return f"{what}: the argument was changed"
     return None
@@ -185,6 +203,8 @@ def forms(texts):
     out.append(("bracket-spaces", "[" + " ".join(texts) + "]"))
     out.append(("bracket-commas", "[" + ",".join(texts) + "]"))
     out.append(("bracket-mixed", "[ " + ", ".join(texts) + " ]"))
+    out.append(("bracket-space-comma", "[" + " , ".join(texts) + "]"))
+    out.append(("bracket-space-before-comma", "[" + " ,".join(texts) + "  ]"))
     if len(texts) == 1:
         out.append(("list-of-one", [texts[0]]))
     return out
@@ -266,11 +286,22 @@ def _run_parse(idx, case):
                 fn = os.path.join(WORK, f"cfg-{os.getpid()}.txt")
                 # every other case asks for x to be unpacked (one variation per value read, in order)
                 unpack = idx % 2 == 0 and not (is_sc and case["scalar"] and syntax == "commas") and len(case["vals"]) > 0
-                with open(fn, "w") as f:
-                    f.write(f"before = 7\nx = {line}\n" + ("unpacked_parameters = x,\n" if unpack else "") + "[sec]\nafter = hello\n")
                 args = ", ".join(f"{k}={v}" for k, v in kw.items())
-                spec = [f"x = {chk}({args})" if args else f"x = {chk}", "before = integer", "[sec]", "after = string"]
-                what = f"load_from_config_file with 'x = {line}' and spec {spec[0]!r}"
+                xspec = f"x = {chk}({args})" if args else f"x = {chk}"
+                xline = f"x = {line}"
+                up = "unpacked_parameters = x,\n" if unpack else ""
+                place = (idx + (1 if is_sc else 0)) % 3        # where the checked parameter lives in the file
+                with open(fn, "w") as f:
+                    if place == 0:
+                        f.write(f"before = 7\n{xline}\n{up}[sec]\nafter = hello\n")
+                        spec = [xspec, "before = integer", "[sec]", "after = string"]
+                    elif place == 1:
+                        f.write(f"before = 7\n{up}[sec]\n{xline}\nafter = hello\n")
+                        spec = ["before = integer", "[sec]", xspec, "after = string"]
+                    else:
+                        f.write(f"before = 7\n{up}[sec]\nafter = hello\n[[sub]]\n{xline}\n")
+                        spec = ["before = integer", "[sec]", "after = string", "[[sub]]", xspec]
+                what = f"load_from_config_file with 'x = {line}' ({('top level', 'in a section', 'in a nested section')[place]}) and spec {xspec!r}"
                 params = exc = None
                 try:
                     params = SimulationParameters.load_from_config_file(fn, spec)
